@@ -183,6 +183,12 @@ def run_unit(unit: Unit, forced: Optional[int] = None, fn_override=None) -> Unit
                     raise Unsupported(f"inlined helper {tgt} not found")
                 helpers.set(nm, Closure(loc2[0], helpers, nm))
                 env.set(nm, helpers.lookup(nm))
+            # parameters the scenario leaves out take the default written in the signature (so a changed default is seen)
+            fa = fn.args
+            pos = list(fa.posonlyargs) + list(fa.args)
+            for prm, dflt in list(zip(pos, [None] * (len(pos) - len(fa.defaults)) + list(fa.defaults))) + list(zip(fa.kwonlyargs, fa.kw_defaults)):
+                if dflt is not None and prm.arg not in st.env:
+                    env.set(prm.arg, interp.eval(dflt, env))
             try:
                 interp.exec_block(fn.body, env)
                 result = None
